@@ -5,6 +5,7 @@ package checks
 import (
 	"encoding/json"
 	"fmt"
+	"os"
 	"sort"
 	"strings"
 
@@ -217,4 +218,18 @@ func c07Finalize(r *fw.Result) {
 	}
 	// model_checking keys: every execution runs on the implementation itself
 	r.Extra["traces_validated_against_impl"] = r.Counters["schedule_executions"]
+	// the separate free-running -race pass (run by ./check before this binary)
+	rp := os.Getenv("KV_RACEPASS")
+	r.Extra["race_pass"] = rp
+	switch {
+	case strings.HasPrefix(rp, "race "):
+		r.Violations = append(r.Violations, fw.Violation{Property: "C07", Sig: "finalize:data-race", Case: json.RawMessage(`"free-running -race pass"`),
+			Detail: "the race detector reported a data race in the uninstrumented parallel parser; report: " + strings.TrimPrefix(rp, "race ")})
+		r.ViolationsN++
+	case strings.HasPrefix(rp, "failed") && strings.Contains(rp, "exit=3"):
+		r.Violations = append(r.Violations, fw.Violation{Property: "C07", Sig: "finalize:free-running-mismatch", Case: json.RawMessage(`"free-running pass"`), Detail: rp})
+		r.ViolationsN++
+	case !strings.HasPrefix(rp, "ok "):
+		r.Caps = append(r.Caps, "the free-running -race pass did not run: "+rp)
+	}
 }
